@@ -6,103 +6,103 @@ _T = "Trusted: encoding/csv as the definition of a CSV's rows; meow and s2 (part
 
 TEXT = {
  "C01": {
-  "technique": "deterministic simulation: real sorter + ingest worker pool under a seeded store-op scheduler in a synctest bubble, vs a sort+dedupe reference model",
+  "technique": "deterministic simulation: real sorter + ingest worker pool under a seeded store-op scheduler in a synctest bubble, vs a sort+dedupe reference model; the in-process CLI (commit/export, a quarter of the cases on the real Badger store; branch-file sequences with simulated mtimes); spill files cut while the ingest runs",
   "level_text": "Seeded exploration: generated CSVs (quoting/collision alphabet, boundary row counts, duplicate/empty keys, cells up to and over 65535 bytes, rows over 64 KiB) x delimiter x spill size x worker count x store-operation schedule, each run compared cell-for-cell with an independent encoding/csv parse + sort/dedupe model, plus the C03 structural checker and the C06 write monitor. Sampling, not enumeration.",
   "level_note": _T,
  },
  "C04": {
   "technique": "reference-model conformance inside the simulator (seeded table-pair generator, map-by-key diff model, process isolation, shrinking); scheduler and fault injector add nothing for this pure function",
-  "level_text": "Seeded exploration of table pairs derived by edit scripts (edits at block edges, nested ranges, empty side, keyless, composite keys, 0-4 blocks, one or two stores); every diff event, its offsets (through BlockBuffer and raw decode), self-diff and argument-swap symmetry are checked against a map-by-key model.",
+  "level_text": "Seeded exploration of table pairs derived by edit scripts (edits at block edges, nested ranges, empty side, keyless, composite keys, 0-4 blocks, one or two stores); every diff event, its offsets (through BlockBuffer and raw decode), self-diff and argument-swap symmetry are checked against a map-by-key model. Later additions: duplicate CSV lines at block edges, tables handed over without their Sum field, a small sample against a 9000-14000-row table (one block spanning dozens), one transient read error per case.",
   "level_note": _T + " BlockBuffer size comes from /proc/meminfo and never evicts here.",
  },
  "C07": {
   "technique": "deterministic simulation: real ObjectSender -> packfile -> seeded chunking reader -> real ObjectReceiver between two simulated stores, byte-identity + C03 + empty-diff oracle, adversarial object orders",
-  "level_text": "Seeded exploration over source histories with shared blocks, destinations pre-populated with ancestor-closed commit subsets (with/without tables) and lone objects, tips, table depth, max packfile size from 1 byte, and read partitions of every packfile; plus reordered packfiles that the receiver must refuse without leaving the object behind.",
+  "level_text": "Seeded exploration over source histories with shared blocks, destinations pre-populated with ancestor-closed commit subsets (with/without tables) and lone objects, tips, table depth, max packfile size from 1 byte, and read partitions of every packfile; plus reordered packfiles that the receiver must refuse without leaving the object behind. Later additions: child-first streams under three want lists; read errors of the sender's store while the packfiles are built (gives up, refused, or exact).",
   "level_note": _T,
  },
  "C08": {
   "technique": "two-party protocol simulation: real ClosedSetsFinder.Process driven round by round with generated have batches, checked against a graph model with a store-read step budget",
-  "level_text": "Seeded exploration of server DAGs (<=48 commits incl. diamond chains, several roots, skewed/equal/reversed timestamps), ref tips, want sets, multi-round have batches with unknown hashes, depth 0-3 and shallow commits; closure, parent-first order, reachability, depth-limited table selection, refusal of unreachable wants and a polynomial read budget are checked; each case is repeated because Go map order inside the finder is not seedable.",
+  "level_text": "Seeded exploration of server DAGs (<=48 commits incl. diamond chains, several roots, skewed/equal/reversed timestamps), ref tips, want sets, multi-round have batches with unknown hashes, depth 0-3 and shallow commits; closure, parent-first order, reachability, depth-limited table selection, refusal of unreachable wants and a polynomial read budget are checked; each case is repeated because Go map order inside the finder is not seedable. Later additions: ladder-shaped histories (paths double per level) with a read budget linear in the history per have/want/ref; a refused request repeated on the same finder.",
   "level_note": _T + " The client side of the rounds is a generic generated client here; the real client sessions run in C09.",
  },
  "C11": {
   "technique": "deterministic simulation with clock faults: histories authored under skewed / tied / reversed / backward-jumping timestamps, real IsAncestorOf / CommitsQueue walk / SeekCommonAncestor vs graph reachability model with a step budget",
-  "level_text": "Seeded exploration of DAGs up to 30 commits x 6 timestamp regimes; all ordered pairs for the ancestor test, a full walk from every commit, and 40 sampled 2-4-tuples per graph for the merge base. Graph shapes are sampled, not enumerated.",
+  "level_text": "Seeded exploration of DAGs up to 30 commits x 6 timestamp regimes; all ordered pairs for the ancestor test, a full walk from every commit, and 40 sampled 2-4-tuples per graph for the merge base. Graph shapes are sampled, not enumerated. Later additions: ladder graphs, commits listing a parent twice, sampled queries re-run with one commit read failing (an error or the right answer).",
   "level_note": _T,
  },
  "C15": {
   "technique": "reference-model conformance of the real SQL ref store on a real SQLite file, with reopen as an operation and statement-level SQL fault injection through a database/sql driver wrapper",
-  "level_text": "Seeded exploration of operation sequences (<=40) over a hostile name alphabet; every return value and, after every step, a full dump of refs and logs is compared with a map + per-name log model; injected SQL statement failures check that each method is atomic.",
-  "level_note": _T + " SQLite itself is trusted. The file store (reffs) is not covered yet.",
+  "level_text": "Seeded exploration of operation sequences (<=40) over a hostile name alphabet; every return value and, after every step, a full dump of refs and logs is compared with a map + per-name log model; injected SQL statement failures check that each method is atomic. Later additions: reflogs of 2-320 entries (paged readers); profile C15fs covers the file store.",
+  "level_note": _T + " SQLite itself is trusted.",
  },
  "C16": {
   "technique": "deterministic simulation under the race detector: callers park at the objects.Store seam inside a synctest bubble, a seeded scheduler releases one at a time, harness synchronisation is hidden from the race runtime so happens-before comes from wrgl's own synchronisation only",
-  "level_text": "Seeded exploration, one OS process per case built with -race: multi-block tables x 3-16 workers x spill sizes x store-op schedules x 0-2 injected store errors; verdicts: data race in /repo frames, outcome equal to the 1-worker run, deadlock (synctest), panic, error propagation. Interleavings are sampled at store-operation granularity; data races are decided by happens-before and so do not depend on the sampled order.",
+  "level_text": "Seeded exploration, one OS process per case built with -race: multi-block tables x 3-16 workers x spill sizes x store-op schedules x 0-2 injected store errors; verdicts: data race in /repo frames, outcome equal to the 1-worker run, deadlock (synctest), panic, error propagation. Interleavings are sampled at store-operation granularity; data races are decided by happens-before and so do not depend on the sampled order. Later additions: the diff and merge pipelines under the same regime, sticky store errors, a merge consumer that asks for the columns right after the first message; a real-time watchdog with a zero-progress condition reports livelocks as class hang.",
   "level_note": _T + " Goroutines made runnable together inside one scheduler step are ordered by the Go runtime.",
  },
  "C18": {
   "technique": "deterministic simulation of the transport: every decoder is run over a seeded partition of the byte stream (1-byte, header-straddling, random cuts, data+EOF) and compared with whole-buffer decoding",
-  "level_text": "Seeded exploration: 9 stream kinds (packfiles with objects at varint-boundary sizes, pkt-lines, commit, table, block, block index, profile, string list, uint list) x read partitions; identical decoded values, byte counts and end-of-stream condition required.",
+  "level_text": "Seeded exploration: 9 stream kinds (packfiles with objects at varint-boundary sizes, pkt-lines, commit, table, block, block index, profile, string list, uint list) x read partitions; identical decoded values, byte counts and end-of-stream condition required. Later additions: zero-length reads, objects beyond 1 MiB (4 MiB thorough) followed by further objects, 4 KiB / 32 KiB partitions.",
   "level_note": _T,
  },
  "C19": {
   "technique": "knob-randomised reference-model conformance of the real external sorter (run size 1..inf, removed-column sets, three feed paths) with a per-run temp directory observed for leftover spill files",
-  "level_text": "Seeded exploration of row multisets (duplicate keys across spill files, composite keys with tying first component, keyless) x run sizes forcing 0..k spill files x removed columns before/after the key; both outputs compared with a sort+dedupe model and with each other; temp dir must be empty after Close.",
+  "level_text": "Seeded exploration of row multisets (duplicate keys across spill files, composite keys with tying first component, keyless) x run sizes forcing 0..k spill files x removed columns before/after the key; both outputs compared with a sort+dedupe model and with each other; temp dir must be empty after Close. Later additions: spill files truncated inside a row (an error, or a complete output), a file-size limit while spilling (error and no file left behind), the sorter used again after Close / Reset.",
   "level_note": _T,
  },
  "C20": {
   "technique": "reference-model conformance of index.HashSet over a simulated file (os.File semantics, reopen) with on-file invariants checked after every flush",
-  "level_text": "Seeded exploration of Add/Flush/Has/Len/reopen sequences (<=200) over a 65-hash space with first bytes 00,01,7f,fe,ff and batch sizes 1..8/default; membership, Len, sortedness and fan-out consistency checked against a Go map after every flush and reopen; thorough tier also uses a real temp file.",
+  "level_text": "Seeded exploration of Add/Flush/Has/Len/reopen sequences (<=200) over a 65-hash space with first bytes 00,01,7f,fe,ff and batch sizes 1..8/default; membership, Len, sortedness and fan-out consistency checked against a Go map after every flush and reopen; thorough tier also uses a real temp file. Later additions: sets of 4200-11000 entries receiving small batches, reopen through a handle positioned at the end or through the same handle, transient read errors during Add / Has with retry.",
   "level_note": _T,
  },
  "C02": {
   "technique": "metamorphic deterministic simulation: one logical table ingested under two seeded presentations (row order, delimiter, spill size, worker count, store-op schedule, store instance) must get one identifier; one mutation must change it; CLI re-commit must report no change",
-  "level_text": "Seeded exploration of presentation pairs through the real sorter + ingest worker pool under the parking scheduler, plus the in-process CLI path (commit --set-file, rewrite permuted, commit again) with the file mtime set before/after the simulated commit time.",
+  "level_text": "Seeded exploration of presentation pairs through the real sorter + ingest worker pool under the parking scheduler, plus the in-process CLI path (commit --set-file, rewrite permuted, commit again) with the file mtime set before/after the simulated commit time. Later additions: a file-size limit (RLIMIT_FSIZE) as a full disk while one presentation spills (refused, or the same identifier); two sorters alive at once in one process; prefix-related composite keys; multi-byte delimiters.",
   "level_note": _T,
  },
  "C05": {
   "technique": "deterministic simulation of merge.Merger + RowCollector + hash set (simulated file) + sorter + ingest, driven as the CLI drives them, against scenarios whose result is known by construction",
-  "level_text": "Seeded exploration of constructive 3-way merge scenarios (key column anywhere or none, 1-3 blocks, 2-3 branches; one branch = base, identical branches, disjoint edits, declared same-cell and remove-vs-modify conflicts; column add/remove/move/rename; branch order permuted; hash-set batch 1..default; blocks or rows output). Differ/merger interleaving is left to the Go runtime (the merger busy-polls), the oracle is order-independent.",
+  "level_text": "Seeded exploration of constructive 3-way merge scenarios (key column anywhere or none, 1-3 blocks, 2-3 branches; one branch = base, identical branches, disjoint edits, declared same-cell and remove-vs-modify conflicts; column add/remove/move/rename; branch order permuted; hash-set batch 1..default; blocks or rows output). Differ/merger interleaving is left to the Go runtime (the merger busy-polls), the oracle is order-independent. Later additions: column adds in two branches, a branch or the base declaring the key in another order (refused or right), columns swapped by name with unchanged row bytes, add-add conflicts with an empty cell; profile C05cli drives `wrgl merge` for ahead / behind / equal / diverged histories under every fast-forward mode with store read errors.",
   "level_note": _T + " Scenarios with a column change in one branch and a row removal in another are excluded (the resolver reports them as conflicts, which the statement permits).",
  },
  "C13": {
   "technique": "fault enumeration in the simulator: the global write log (object store + real SQLite ref store snapshots) of each operation is recorded, every prefix is materialised as a crash state, reopened, checked and the operation re-run; plus a failure injected at every write position (once, and sticky = disk full)",
-  "level_text": "For every generated case ALL crash points of the executed operation are enumerated (exhaustive over the write sequence of that run, sampled over inputs): commit to an existing/new branch (incl. multi-worker ingest under the seeded scheduler), merge fast-forward / --no-ff / 3-way, prune; invariants I1-I4 on every state and equivalence (tables + history shape) of the re-run with the uninterrupted run.",
-  "level_note": _T + " Crash = process death between two store writes (completed writes survive); torn writes inside one Set / one SQL transaction are not modelled (Badger and SQLite are trusted to be atomic per call). fetch/pull are covered in C09's fault profile, not yet prefix-enumerated.",
+  "level_text": "For every generated case ALL crash points of the executed operation are enumerated (exhaustive over the write sequence of that run, sampled over inputs): commit to an existing/new branch (incl. multi-worker ingest under the seeded scheduler), merge fast-forward / --no-ff / 3-way, prune; invariants I1-I4 on every state and equivalence (tables + history shape) of the re-run with the uninterrupted run. Later additions: fetch and pull against the reference server are prefix-enumerated like the others; mode sqlerror fails every SQL statement of the ref store once; refusal of merges onto commits without their table; `wrgl prune` on every crash state before the re-run.",
+  "level_note": _T + " Crash = process death between two store writes (completed writes survive); torn writes inside one Set / one SQL transaction are not modelled (Badger and SQLite are trusted to be atomic per call).",
  },
  "C14": {
   "technique": "fault enumeration in the simulator over `wrgl transaction commit|discard`: crash after every write prefix and failure at every object-store/ref-store write, re-run, plus double-commit / discard-after-commit sequences",
-  "level_text": "Transactions staging 1-4 new/existing branches through the in-process CLI; every crash point and every single write failure of commit and discard is enumerated per case; oracle: every branch untouched with the transaction in progress, or completable by re-running to exactly one new commit per branch carrying the staged table, committed status and one tagged reflog entry per branch; never two commits ahead; committed transactions refuse commit and discard.",
+  "level_text": "Transactions staging 1-4 new/existing branches through the in-process CLI; every crash point and every single write failure of commit and discard is enumerated per case; oracle: every branch untouched with the transaction in progress, or completable by re-running to exactly one new commit per branch carrying the staged table, committed status and one tagged reflog entry per branch; never two commits ahead; committed transactions refuse commit and discard. Later additions: mode sqlerror (every SQL statement fails once), an ordinary commit between the interrupted run and the re-run, a staged branch that moved (other or identical data) before the transaction is committed.",
   "level_note": _T,
  },
  "C09": {
   "technique": "multi-node deterministic simulation: client repositories and a remote in one process, every wrgl command an in-process CLI process in its own synctest bubble (per-node clocks), real client sessions / fetch / push / pull over a simulated network (simnet RoundTripper with chunking and injected loss, duplication, 5xx, stream errors, server restarts, delays) against a reference server assembled from wrgl's own finder/sender/receiver",
-  "level_text": "Seeded exploration of 6-17-operation histories on three nodes x server knobs (table-negotiation batch, max packfile size) x client pack size x response chunking; fault-free profile: closure, tables within depth, byte-identical objects, I1-I4 on all nodes after every operation, immediate repeat transfers nothing; fault profile: an operation may fail, success implies the postcondition, failures leave I1-I4 intact, and after the last fault one more fetch succeeds within a request budget (push back-off and delays run on the fake clock).",
+  "level_text": "Seeded exploration of 6-17-operation histories on three nodes x server knobs (table-negotiation batch, max packfile size) x client pack size x response chunking; fault-free profile: closure, tables within depth, byte-identical objects, I1-I4 on all nodes after every operation, immediate repeat transfers nothing; fault profile: an operation may fail, success implies the postcondition, failures leave I1-I4 intact, and after the last fault one more fetch succeeds within a request budget (push back-off and delays run on the fake clock). Later additions: SQL statement errors (hook H3), object-store errors on either side, op-relative network faults, 404 plain-text replies, leftovers of an interrupted transfer, tags-only forced fetches, `pull --all` / `push --all`, branches of 257-520 tables, and `unexpected-failure` for operations that fail without an injected fault.",
   "level_note": _T + " The remote's HTTP glue (routing, sessions, ref compare-and-swap, policy) is a harness stub written from the client's expectations (DESIGN 2.5.1); only client-side code under /repo is judged. A commit that was already present without its table (earlier --depth fetch) staying shallow after a full fetch is wrgl's documented behaviour (`wrgl fetch tables`) and is reported as class table-missing-previously-shallow, which this check does not count.",
  },
  "C10": {
   "technique": "monitor over the multi-node deterministic simulation: every ref transition is recorded at the ref-store seam (SimRef) and every receive-pack request at the server seam, and judged against ancestry computed independently from the raw commit objects",
-  "level_text": "Seeded exploration biased towards diverged local/remote histories, skewed node clocks (descendants older than ancestors), tags moved on the remote, --force / +refspec / --ff / --no-ff / --ff-only; checks: non-forced moves go to descendants only, tags never clobbered, rejections reported with the ref untouched, fast-forward lands exactly on the other commit, reflog entries carry the true old/new, pushes never ask for a non-fast-forward or tag move without force.",
+  "level_text": "Seeded exploration biased towards diverged local/remote histories, skewed node clocks (descendants older than ancestors), tags moved on the remote, --force / +refspec / --ff / --no-ff / --ff-only; checks: non-forced moves go to descendants only, tags never clobbered, rejections reported with the ref untouched, fast-forward lands exactly on the other commit, reflog entries carry the true old/new, pushes never ask for a non-fast-forward or tag move without force. Later additions: BRANCH spelled as heads/x, refs/heads/x, x~0, x^, or by the last segment of a nested name; true fast-forward blocks; refspecs into tags/, heads/, remotes/backup/, mirror/; two refs on one tip; SQL statement errors during client operations.",
   "level_note": _T + " Remote-tracking refs are updated through the '+refs/heads/*:refs/remotes/origin/*' refspec that `wrgl remote add` configures, i.e. explicitly forced, as in git.",
  },
  "C12": {
   "technique": "deterministic simulation of prune (library and in-process CLI prune/gc) on generated repositories against a reachability model computed from the raw store",
-  "level_text": "Seeded exploration: commit DAG <=16 over tables sharing blocks, refs of every kind (heads, tags, remote-tracking, open-transaction refs, custom), shallow commits whose table was never fetched, a random subset of refs deleted, prune run twice; reachable commits keep commit/table/index/profile/blocks/block indices byte-identical and sound, unreachable commits and the tables/blocks referenced only by them are gone, second prune writes nothing, no panic. Crash-during-prune is enumerated under C13.",
+  "level_text": "Seeded exploration: commit DAG <=16 over tables sharing blocks, refs of every kind (heads, tags, remote-tracking, open-transaction refs, custom), shallow commits whose table was never fetched, a random subset of refs deleted, prune run twice; reachable commits keep commit/table/index/profile/blocks/block indices byte-identical and sound, unreachable commits and the tables/blocks referenced only by them are gone, second prune writes nothing, no panic. Crash-during-prune is enumerated under C13. Later additions: store-op errors during the first prune (reachable objects survive whatever it returns; one more fault-free prune completes), damaged repositories in which listed blocks are absent.",
   "level_note": _T + " Garbage that no commit or removed table references (e.g. blocks left by a failed ingest) is outside the statement and not judged.",
  },
  "C17": {
   "technique": "corruption as a fault at the disk and wire seams of the simulator: stored values / packfiles / encoded streams are bit-flipped, truncated, given inflated counts or wrong labels and read through every reader; replies of the simulated remote are truncated or bit-flipped during real fetch/pull/push; panic, hang and allocation are observed per call",
-  "level_text": "Seeded, structure-aware corruption (not coverage-guided fuzzing): one corruption per case of one stored object of a real generated repository (raw or inside the s2 frame), of a real packfile fed to ObjectReceiver.Receive, or of one of 9 encoded stream kinds; plus the multi-node run with corrupted replies. Oracle: returns, no panic in any goroutine (goroutine panics kill the worker and are attributed to the seed), allocation <= 64 x input + 16 MiB, stored objects after a rejected packfile are keyed by their hash, decodable and pass I1-I3, success of a command implies the C09 postcondition.",
+  "level_text": "Seeded, structure-aware corruption (not coverage-guided fuzzing): one corruption per case of one stored object of a real generated repository (raw or inside the s2 frame), of a real packfile fed to ObjectReceiver.Receive, or of one of 9 encoded stream kinds; plus the multi-node run with corrupted replies. Oracle: returns, no panic in any goroutine (goroutine panics kill the worker and are attributed to the seed), allocation <= 64 x input + 16 MiB, stored objects after a rejected packfile are keyed by their hash, decodable and pass I1-I3, success of a command implies the C09 postcondition. Later additions: kind forged (well-formed, correctly hashed objects that contradict each other; 16-byte time fields and over-long object headers no mutation reaches); hostile but well-formed JSON replies, empty packfiles for ever (request budget), 404 plain text during `pull --all` / `push --all`.",
   "level_note": _T + " Open finding C17-s2-block-length (s2.Decode allocates the announced block length) is classified separately and printed as KNOWN-FINDING.",
  },
  "C03": {
   "technique": "monitor + own profile in the deterministic simulator: an independent structural checker (block sizes, key order, recomputed block indices, table index, hash keys) runs on every table produced by ingest (seeded worker schedule), merge commit, wire receipt and doctor resolve, together with the repository's own doctor.Diagnose",
-  "level_text": "Seeded exploration at boundary sizes (0,1,2,254,255,256,509,510,511,765,766 rows; keyed/keyless; all-empty row) x four producers; the same checker is also evaluated as a monitor in the C01, C02, C05, C06, C07, C09, C13 and C16 runs.",
+  "level_text": "Seeded exploration at boundary sizes (0,1,2,254,255,256,509,510,511,765,766 rows; keyed/keyless; all-empty row) x four producers; the same checker is also evaluated as a monitor in the C01, C02, C05, C06, C07, C09, C13 and C16 runs. Later additions: composite keys in any declared order, one table of more than 1024 blocks per 1000 seeds, duplicate CSV lines at block edges, the same rows re-committed under another key, a receipt interrupted at the table object, pruned and repeated.",
   "level_note": _T,
  },
  "C06": {
   "technique": "write monitor at the simulated object store (key = hash of canonical bytes, decode, re-encode = stored bytes, same key => same bytes) active in every profile, plus an own profile driving field extremes through the in-process CLI with simulated clocks and zones, and the packfile length header through hook H2",
-  "level_text": "Seeded exploration of message/name/email lengths 0..70000, node clocks up to year 2262 (limit of the synctest clock) and library-level times up to year 9999 and before year 1, zone offsets incl. half hours and seconds, rows crossing 64 KiB, 1..256 rows; packfile header round trip over all varint boundaries, 32-bit and sampled 64-bit lengths (sampled, not every 32-bit length). Oracle: error at write time with the branch untouched, or read back equal.",
+  "level_text": "Seeded exploration of message/name/email lengths 0..70000, node clocks up to year 2262 (limit of the synctest clock) and library-level times up to year 9999 and before year 1, zone offsets incl. half hours and seconds, rows crossing 64 KiB, 1..256 rows; packfile header round trip over all varint boundaries, 32-bit and sampled 64-bit lengths (sampled, not every 32-bit length). Oracle: error at write time with the branch untouched, or read back equal. Later additions: library-level tables of up to 5000 block sums; table profiles with NaN / infinite / extreme float statistics.",
   "level_note": _T + " Exhaustive enumeration of all 32-bit lengths is model checking and is not attempted.",
  },
 }
